@@ -18,7 +18,7 @@ from harness import ws
 from harness.core import run_forked, setup_repo_imports
 
 EDITACTS = ["access", "call_other", "set_efth", "set_dir", "set_freq", "call_unknown", "other_shape"]
-OBS_OPS = ["hs", "dm", "dspr", "tp", "oned", "smooth33", "rotate45", "ptm3", "dd", "stats_dict", "tm02", "dp"]
+OBS_OPS = ["hs", "dm", "dspr", "tp", "oned", "smooth33", "rotate45", "ptm3", "dd", "stats_dict", "tm02", "dp", "rmse_partial"]
 
 
 def mech_cfg(binding, memo, steps):
@@ -28,6 +28,12 @@ def mech_cfg(binding, memo, steps):
 
 
 def observe(obj, op):
+    if op == "rmse_partial":
+        # a statistic of two spectra whose time windows overlap only partly (rmse documents that coordinates are broadcast / aligned):
+        # how xarray aligns them is process-wide state a library call must not have changed
+        da = obj["efth"] if hasattr(obj, "data_vars") else obj
+        a, b = da.isel(time=slice(0, 2)), da.isel(time=slice(1, 3)) * 1.5
+        return S.project(a.spec.rmse(b))
     if op == "dd":
         return {"dims": (), "coords": {}, "values": np.asarray(float(obj.spec.dd))}
     import xarray as xr
@@ -245,6 +251,7 @@ def run(ctx):
                     elif a == "other_shape":
                         other.spec.partition.ptm3(parts=2)
                         read_swan(sample).spec.hs()
+                        other.spec.fit_jonswap()          # reaches the construct helpers (scaled, jonswap) on another object
             except Exception as ex:  # noqa
                 ctx.violation({"history": [a for a, _ in acts], "kind": kind_, "raised": type(ex).__name__},
                               "history %s raised %s" % ([a for a, _ in acts], type(ex).__name__), {"err": str(ex)[:300]})
